@@ -8,7 +8,7 @@ from props import c01, c08
 
 ID = "C09"
 LEVEL = "proof"
-THEOREMS = ["C09_emit_wf_pil", "C09_wf_check_sound", "C09_wf_check2_sound", "C09_compiled_struct_balanced", "C09_domain_struct_balanced", "C09_accepted_wf_pil", "C09_reserved_names"]
+THEOREMS = ["C09_emit_wf_pil", "C09_wf_check_sound", "C09_wf_check2_sound", "C09_compiled_struct_balanced", "C09_domain_struct_balanced", "C09_accepted_wf_pil", "C09_reserved_names", "C09_wf_pil_documents_load"]
 TRUSTED = c01.TRUSTED
 ASSUMPTIONS = c01.ASSUMPTIONS
 
